@@ -252,8 +252,8 @@ fn random_case(rng: &mut Rng, max_prec: usize, max_gap: i64) -> Value {
                 1 | 2 => rng.range(1, prec as i64),
                 3 | 4 => rng.range(prec as i64 - 1, 2 * prec as i64 + 4),
                 5 => rng.range(0, 3 * prec as i64 + 6),
-                6 => rng.range(2 * prec as i64, max_gap / 4),
-                _ => rng.range(max_gap / 4, max_gap),
+                6 => rng.range(2 * prec as i64, (max_gap / 4).max(2 * prec as i64 + 1)),
+                _ => rng.range(max_gap / 4, max_gap.max(max_gap / 4 + 1)),
             }
             .max(0);
             bexp = if rng.coin() { aexp - gap } else { aexp + gap };
